@@ -37,6 +37,7 @@ def live_oracle(prop, scenarios, rounds_quick=300, rounds_thorough=3000):
     def run(tier, seed, tracegen, sh):
         failures, rows = [], []
         gen = None
+        fail_gen = None
         for sc in scenarios:
             rounds = rounds_quick if tier == "quick" else rounds_thorough
             gen = ["live", "--scenario", sc, "--rounds", str(rounds), "--seed", str(seed)]
@@ -48,7 +49,9 @@ def live_oracle(prop, scenarios, rounds_quick=300, rounds_thorough=3000):
             rows.append({"scenario": m[1], "rounds": int(m[2]), "violations": int(m[3])})
             if int(m[3]) > 0:
                 failures.append(f"MONITOR-FAIL property={prop} live scenario {sc}: {m[4].replace('_', ' ')} [tracegen {' '.join(gen)}]")
-        return {"report": {"kind": "implementation-vs-oracle test on real threads (not a proof)", "rows": rows}, "failures": failures, "gen": gen}
+                fail_gen = fail_gen or gen
+        # the replay re-runs the scenario that failed (the first one, if several did)
+        return {"report": {"kind": "implementation-vs-oracle test on real threads (not a proof)", "rows": rows}, "failures": failures, "gen": fail_gen or gen}
     return run
 
 
